@@ -575,7 +575,9 @@ deriving Repr
 def reopen (period : Nat) (h : MetaState) : Reopened :=
   { strings := (if (h.strings.flags &&& SF_STR_LOCATE_START) ≠ 0 ∧ locationCount h.strings SF_STR_LOCATE_START ≠ 0
                 then parseInfo (writeStrings h.strings SF_STR_LOCATE_START) else []) ++
-               (if (h.strings.flags &&& SF_STR_LOCATE_END) ≠ 0 ∧ locationCount h.strings SF_STR_LOCATE_END ≠ 0
+               -- the trailing LIST: rf64_read_header does not skip the pad byte that follows an odd number of audio bytes
+               (if (h.strings.flags &&& SF_STR_LOCATE_END) ≠ 0 ∧ locationCount h.strings SF_STR_LOCATE_END ≠ 0 ∧
+                   ¬ (h.cont = .rf64 ∧ h.audio.length % 2 = 1)
                 then parseInfo (writeStrings h.strings SF_STR_LOCATE_END) else []),
     bext := h.bext.bind fun b => readBext (writeBext b),
     cart := h.cart.bind fun c => readCart (writeCart c),
